@@ -276,6 +276,14 @@ Proof.
       apply IH in Hrest. rewrite Hrest. reflexivity.
 Qed.
 
+Lemma Forall2_impl' {A B} (R R' : A -> B -> Prop) (l : list A) (l' : list B) :
+  (forall a b, R a b -> R' a b) -> Forall2 R l l' -> Forall2 R' l l'.
+Proof. intros H. induction 1; constructor; auto. Qed.
+
+Lemma Forall2_len {A B} (R : A -> B -> Prop) (l : list A) (l' : list B) :
+  Forall2 R l l' -> List.length l = List.length l'.
+Proof. induction 1; cbn; congruence. Qed.
+
 Lemma Forall2_nth_error {A B} (R : A -> B -> Prop) (l : list A) (l' : list B) :
   Forall2 R l l' -> forall c x, nth_error l c = Some x -> exists y, nth_error l' c = Some y /\ R x y.
 Proof.
@@ -313,10 +321,10 @@ Lemma multi_color_spec (wt : list (string * W)) (pol : polspec P) (t : tree (lea
                                   single (snd lw) p (select_scatterer (fst lw) t) = Ok (snd lf)) wt out.
 Proof.
   unfold multi_color. rewrite sequence_map_Forall2.
-  split; intros H; (eapply Forall2_impl; [|exact H]); intros [lab w] [lab' f]; cbn [fst snd].
-  - intros E. destruct (pol_for pol lab) as [p|e]; [|discriminate]. cbn [bind] in E.
-    destruct (single w p (select_scatterer lab t)) as [f'|e]; [|discriminate]. cbn [rmap] in E.
-    inversion E; subst. split; [reflexivity|]. exists p. split; reflexivity.
+  split; intros H; (eapply Forall2_impl'; [|exact H]); intros [lab w] [lab' f]; cbn [fst snd].
+  - intros E. destruct (pol_for pol lab) as [p|e] eqn:Ep; [|discriminate]. cbn [bind] in E.
+    destruct (single w p (select_scatterer lab t)) as [f'|e] eqn:Es; [|discriminate]. cbn [rmap] in E.
+    inversion E; subst. split; [reflexivity|]. exists p. split; [reflexivity|exact Es].
   - intros (El & p & Ep & Es). subst. rewrite Ep. cbn [bind]. rewrite Es. reflexivity.
 Qed.
 
@@ -328,7 +336,7 @@ Lemma multi_color_nth (wt : list (string * W)) (pol : polspec P) (t : tree (leaf
                 nth_error out c = Some (lab, f).
 Proof.
   intros H. apply multi_color_spec in H. split.
-  - symmetry. eapply Forall2_length, H.
+  - symmetry. eapply Forall2_len, H.
   - intros c lab w Hc. destruct (Forall2_nth_error _ _ _ H c _ Hc) as ([lab' f] & Hn & El & p & Ep & Es).
     cbn [fst snd] in *. subst. exists p, f. repeat split; assumption.
 Qed.
@@ -408,7 +416,7 @@ Lemma mie_assemble_linear (A : asm R) pref erad ct st cp sp ex ey :
 Proof.
   destruct A as [[[a11r a11i] [a12r a12i]] [[a21r a21i] [a22r a22i]]], pref as [pr pi], erad as [er ei].
   unfold mie_assemble, incfield, calc_scat_field, fieldstocart, radial_to_cart, cv_add, cv_scale,
-    cadd, cmul, cscale, cneg; cbn. cv_eq ring.
+    cadd, cmul, cscale, cneg; cbn. cv_eq ltac:(ring).
 Qed.
 
 Lemma pol_linear_mie (A : asm R) pref erad ct st cp sp ph a b nrm : nrm <> 0 ->
@@ -489,13 +497,18 @@ Qed.
 Lemma Q2R_half : Q2R (/ inject_Z 2) = (/ 2)%R.
 Proof. rewrite Q2R_inv; [rewrite Q2R_inject_Z; reflexivity|]. intro H. discriminate H. Qed.
 
+Lemma Q2R_half' : Q2R (1 # 2) = (/ 2)%R.
+Proof. unfold Q2R; simpl. lra. Qed.
+Lemma Q2R_two' : Q2R (2 # 1) = 2%R.
+Proof. unfold Q2R; simpl. lra. Qed.
+
 Lemma mielens_assemble_Q_R (I0 I2 : cplx Q) cp sp cg sg K :
   cvQ2R (mielens_assemble QO I0 I2 cp sp cg sg K)
   = mielens_assemble RO (cQ2R I0) (cQ2R I2) (Q2R cp) (Q2R sp) (Q2R cg) (Q2R sg) (cQ2R K).
 Proof.
   destruct I0 as [i0r i0i], I2 as [i2r i2i], K as [kr ki].
   unfold mielens_assemble, two, czero, cv_add, cv_scale, cadd, cmul, cscale, cneg, cvQ2R, cQ2R; cbn.
-  cv_eq ltac:(autorewrite with q2r; rewrite ?Q2R_half; reflexivity).
+  cv_eq ltac:(autorewrite with q2r; rewrite ?Q2R_half, ?Q2R_half', ?Q2R_two'; reflexivity).
 Qed.
 
 Lemma wavevec_Q_R (twopi nm w : Q) : ~ nm == 0 -> ~ w == 0 ->
